@@ -23,7 +23,7 @@
     channel operations, [select] and [sync.WaitGroup] behave as the LTS' labels say is assumed, not
     proved; the correspondence check replays observed histories of the real code through the LTS. *)
 From Coq Require Import List ZArith Arith.
-From ApiFu Require Import Idle.IdleModel Idle.IdleSpec Idle.IdleProofs Idle.IdleLive Idle.IdleHist Idle.IdleFair.
+From ApiFu Require Import Idle.IdleModel Idle.IdleSpec Idle.IdleProofs Idle.IdleLive Idle.IdleHist Idle.IdleFair Idle.IdleSub.
 From ApiFu Require Fut.Plan Fut.ExecAsync Fut.ExecSync Fut.AsyncRun Fut.FutSpec Fut.FutProofs.
 Import ListNotations.
 
@@ -176,6 +176,35 @@ Theorem C15_response_eq_sync_composed : forall md root (cs1 cs2 : list (list nat
     FutSpec.conforms root (ExecAsync.r_data r2) (ExecAsync.r_errors r2).
 Proof. exact response_independent_of_handler_rounds. Qed.
 
+(** ** Subscriptions: one execution per event, all sharing one apiRequest
+
+    [sub_run fixed fx p s0 [tr1; ...; trn]]: the events' histories; between two executions
+    [finish_exec fixed] carries the apiRequest over — with the repair (finishExecution drops
+    [batches] and [chainedAsyncResolutions]) nothing but the connection's cancellation state.
+    On the repaired code every event is a run of the single-execution LTS from a fresh request
+    state ([fresh c] = [init], cancelled or not), so every theorem above holds of every event; in
+    particular its history is accepted by the Spec monitor: no batch function ever sees a field
+    context of an earlier event. *)
+Theorem C15_subscription_events_isolated : forall p, wf_items p = true -> bfun_ok p ->
+  forall fx trs c s,
+  sub_run true fx p (fresh c) trs = Some s ->
+  Forall (fun tr => exists c' s' m, run fx p (fresh c') tr = Some s' /\
+                                    mon_run p mon_init tr = Some m /\ Inv p s' /\ Sim p s' m) trs.
+Proof. exact events_isolated. Qed.
+
+(** Before the repair (api-fu 786cdc5): subscription{ev{a0:b0{a1:lb0 a2:lsN}}} with a2 failing; the first
+    event returns with the invocation of a1 still in [batches]; the second event's batch call is
+    [flush 0 [1; 0]] — field context 1 was not invoked in that execution; the Spec rejects the
+    history; and the repaired code cannot produce it. *)
+Theorem C15_subscription_batch_leak_refuted_before_fix :
+  exists p tr1 tr2 s,
+    wf_items p = true /\ bfun_ok p /\
+    sub_run false current p init [tr1; tr2] = Some s /\
+    (exists k its w, In (LFlush k its) tr2 /\ In w its /\ ~ In w (created_of tr2)) /\
+    mon_run p mon_init tr2 = None /\
+    sub_run true current p init [tr1; tr2] = None.
+Proof. exact batch_leak_before_fix. Qed.
+
 (** A hand-over in Go that also selects on the request context (the seeded change C15-2, as the
     step relation [step_ctxdrop]): after a cancellation the goroutine may end without handing its
     result over; the request [create 0; idle-enter; cancel; finish 0; arrive 0; exit 0] is then inside
@@ -209,6 +238,8 @@ Print Assumptions C15_no_leak.
 Print Assumptions C15_drains.
 Print Assumptions C15_no_leak_refuted_before_fix.
 Print Assumptions C15_completes_refuted_with_ctx_drop.
+Print Assumptions C15_subscription_events_isolated.
+Print Assumptions C15_subscription_batch_leak_refuted_before_fix.
 Print Assumptions C15_idle_round_fulfils.
 Print Assumptions C15_idle_round_fair_unchained.
 Print Assumptions C15_idle_rounds_bounded.
